@@ -18,6 +18,7 @@ EXPLANATION = ('SIBLING: neither Group nor ExternalGroup overrides the shared de
                'member installs, each from the same provisional origin. WIRE: the only check the observer skips is the membership '
                'tag (membership key = None). FAIL-ATOMIC and PANIC-AUDIT over the public ExternalGroup API (the epoch-window '
                'arithmetic is a saturating subtraction). Agreement of values over histories is not decided.')
+EXPLANATION += ' WIRE: the observer names the external-sender slot whose whole signing identity (credential and key) equals its own.'
 ASSUMPTIONS = ['observer-visible state is GroupState; secrets are not part of the comparison']
 
 SHARED = ['check_metadata', 'get_event_from_incoming_message', 'process_application_message', 'process_auth_content', 'process_commit',
